@@ -28,7 +28,7 @@ ASSUMPTIONS = [
 REQUIRED_COUNTERS = ('schedules_executed', 'preemptions_taken', 'responses_compared', 'wsdl_builds_counted')
 SHARD_TIMEOUT = {'quick': 900, 'thorough': 3000}
 
-WORKLOADS = ('wsdl2', 'wsdl3_rpc', 'wsdl_rpc', 'rpc_pa', 'rpc_pa_json', 'lxml_mix', 'json_mix', 'xml_3', 'msgpack_mix', 'soap12_mix', 'multiref', 'json_pos', 'msgpackrpc_pos')
+WORKLOADS = ('wsdl2', 'wsdl3_rpc', 'wsdl_rpc', 'rpc_pa', 'rpc_pa_json', 'lxml_mix', 'json_mix', 'xml_3', 'msgpack_mix', 'soap12_mix', 'multiref', 'json_pos', 'msgpackrpc_pos', 'mixin_xml')
 
 
 def shards(tier, seed):
@@ -132,18 +132,25 @@ class Universe(object):
         self.name = name
         self.builds = 0
         kind = {'wsdl2': 'soap11', 'wsdl3_rpc': 'soap11', 'wsdl_rpc': 'soap11', 'rpc_pa': 'soap11', 'rpc_pa_json': 'json',
-                'lxml_mix': 'soap11', 'json_mix': 'json', 'xml_3': 'xml', 'msgpack_mix': 'msgpack', 'soap12_mix': 'soap12', 'multiref': 'soap11', 'json_pos': 'json', 'msgpackrpc_pos': 'msgpackrpc'}[name]
+                'lxml_mix': 'soap11', 'json_mix': 'json', 'xml_3': 'xml', 'msgpack_mix': 'msgpack', 'soap12_mix': 'soap12', 'multiref': 'soap11', 'json_pos': 'json', 'msgpackrpc_pos': 'msgpackrpc', 'mixin_xml': 'xml'}[name]
         self.kind = kind
         protcls = {'soap11': Soap11, 'soap12': Soap12, 'json': JsonDocument, 'xml': XmlDocument, 'msgpack': MessagePackDocument,
                    'msgpackrpc': MessagePackRpc}[kind]
 
-        class Item(ComplexModel):
+        class Stamped(object):
+            """a plain mixin, listed after the model base: class-keyed handler tables are searched base by base"""
+
+        # (only where no schema is compiled: the schema generator's own class-keyed table answers for such a class with its entry for `object`)
+        mixin = (Stamped,) if name == 'mixin_xml' else ()
+        Item = None
+
+        class Item(ComplexModel, *mixin):
             __namespace__ = M.TNS
             a = Integer
             b = Unicode(pa={protcls: dict(exc=True)}) if name.startswith('rpc_pa') else Unicode
             c = Array(Unicode)
 
-        class Other(ComplexModel):
+        class Other(ComplexModel, *mixin):
             __namespace__ = M.TNS
             x = Integer
             items = Array(Item)
@@ -206,6 +213,7 @@ class Universe(object):
         self.requests = {
             'json_pos': [positional('wrap', [1, 'one', ['p', 'q']], 5), positional('wrap', [2, 'two', ['r']], 6), positional('echo_item', [3, 'three', []])],
             'msgpackrpc_pos': [R(kind, 'wrap', item1 + [('x', 5)]), R(kind, 'wrap', item2 + [('x', 6)]), R(kind, 'echo_item', item1)],
+            'mixin_xml': [R(kind, 'echo_item', item1), R(kind, 'wrap', item2 + [('x', 3)]), R(kind, 'echo_item', item2)],
             'multiref': [multiref(1, 'alice'), multiref(2, 'bob'), R(kind, 'echo_item', item1)],
             'wsdl2': [wsdl, wsdl],
             'wsdl3_rpc': [wsdl, wsdl, wsdl, R(kind, 'echo', [('n', 5)])],
